@@ -31,7 +31,7 @@ TEXTS = {
     'a+1': ('idx_reg', 'a', 1), '{5}': ('curly', None, 5),
     'foo+1': ('num', None, 8), 'foo_x': ('num', None, 3),      # expressions / identifiers that merely begin with an enumeration key
     # a register name under a unary operator or function is still a register name inside an expression: nothing accepts these
-    '-a': ('predec', 'a', None), '-b': ('predec', 'b', None), '++a': ('preinc', 'a', None), 'a++': ('postinc', 'a', None), 'LSB(b)': ('regexpr', 'b', None), 'BYTE0(A)': ('regexpr', 'a', None), '5+-sp': ('regexpr', 'sp', None),
+    '-a': ('predec', 'a', None), '-b': ('predec', 'b', None), '++a': ('preinc', 'a', None), 'a++': ('postinc', 'a', None), '-[a]': ('predec_ind', 'a', None), '[a]+': ('postinc_ind', 'a', None), 'LSB(b)': ('regexpr', 'b', None), 'BYTE0(A)': ('regexpr', 'a', None), '5+-sp': ('regexpr', 'sp', None),
 }
 TEXTS_Q2 = ['a', 'b', 'sp', '5', 'foo', '[5]', '[a]', 'a+1']
 
@@ -59,6 +59,11 @@ alt('preinc_a', 1, lambda c: {'type': 'register', 'register': 'a', 'bytecode': {
     lambda cat: (True, None) if cat[0] == 'preinc' and cat[1] == 'a' else None)
 alt('postinc_a', 1, lambda c: {'type': 'register', 'register': 'a', 'bytecode': {'value': c, 'size': 4}, 'decorator': {'type': 'plus_plus', 'is_prefix': False}},
     lambda cat: (True, None) if cat[0] == 'postinc' and cat[1] == 'a' else None)
+# a decorated indirect register: the bracket is not the first character of the operand text
+alt('predec_ind_a', 0, lambda c: {'type': 'indirect_register', 'register': 'a', 'bytecode': {'value': c, 'size': 4}, 'decorator': {'type': 'minus', 'is_prefix': True}},
+    lambda cat: (True, None) if cat[0] == 'predec_ind' and cat[1] == 'a' else None)
+alt('postinc_ind_a', 0, lambda c: {'type': 'indirect_register', 'register': 'a', 'bytecode': {'value': c, 'size': 4}, 'decorator': {'type': 'plus', 'is_prefix': False}},
+    lambda cat: (True, None) if cat[0] == 'postinc_ind' and cat[1] == 'a' else None)
 alt('numeric', 2, lambda c: {'type': 'numeric', 'bytecode': {'value': c, 'size': 4}, 'argument': _arg8()},
     lambda cat: (True, cat[2]) if cat[0] in ('num', 'key', 'keyz') else None)
 alt('numeric_va', 2, lambda c: {'type': 'numeric', 'bytecode': {'value': c, 'size': 4},
